@@ -118,6 +118,8 @@ def r1_copy_ownership(ctx):
         for s in ctor:
             for a in s.value.args[1:] + [k.value for k in s.value.keywords]:
                 p = path_of(a)
+                if isinstance(a, ast.Call) and _fresh(a):
+                    continue      # (a copy made for the purpose)
                 if p and p.startswith('self.') and p[5:] not in IMMUTABLE_OK:
                     yield Ob(km('%s:%s constructor argument %s' % (mod, qual, p)), False, ctx.floc(fn, s), 'the copy is constructed around the original\'s %s' % p)
         # children appended to the copy belong to the copy
